@@ -98,7 +98,7 @@ func valuesToRead(fn *ssa.Function, v ssa.Value, optional bool) bool {
 	v = stripConvert(v)
 	// minus the values already held (none: Read runs once per chunk on fresh column objects)
 	if bo, ok := v.(*ssa.BinOp); ok && bo.Op == token.SUB {
-		if f := lenOfRecvField(fn, bo.Y); f != nil && f.Name() == "vals" {
+		if f := lenOfRecvField(fn, bo.Y); f != nil && roleOf(f) == "vals" {
 			v = stripConvert(bo.X)
 		}
 	}
@@ -420,7 +420,7 @@ func runFT(c *Ctx, rule string, which map[string]bool) {
 func isCeilDiv8(fn *ssa.Function, v ssa.Value) bool {
 	isN := func(x ssa.Value) bool {
 		f := lenOfRecvField(fn, x)
-		return f != nil && f.Name() == "vals"
+		return f != nil && roleOf(f) == "vals"
 	}
 	isDiv8 := func(x ssa.Value, inner func(ssa.Value) bool) bool {
 		bo, ok := x.(*ssa.BinOp)
